@@ -4,7 +4,6 @@
 package cmd
 
 import (
-	"bufio"
 	"bytes"
 	"errors"
 	"fmt"
@@ -178,8 +177,7 @@ func processFile(filePath string, ctxt *processors.Context, checkOnly bool) erro
 		return err
 	}
 
-	scanner := bufio.NewScanner(parsedBytes)
-	scanner.Split(bufio.ScanLines)
+	scanner := utils.NewLineScanner(parsedBytes)
 	lines := []string{}
 
 	indent := 0
